@@ -537,8 +537,9 @@ class RSTWriter(object):
         if isinstance(file, str):
             # Strip leading/trailing whitespace, so we don't end up with '. '
             # as a file, I have seen it happen before
+            # Always UTF-8 (what Sphinx reads, and what the CMake sources are read as), not the locale's encoding
             with open(file.strip(),
-                      'w') as f:
+                      'w', encoding="utf-8") as f:
                 f.write(str(self))
         else:
             # Might be invalid object, checking to make sure it's file-like
